@@ -516,6 +516,103 @@ def gen_case(rng, max_depth=5, kinds=None, chan_choices=None):
     return {'pt': pt, 'params': params, 'cm': cm}
 
 
+# ---- constant-folding stream ----------------------------------------------------------------------------------------
+def gen_fold_case(rng):
+    """constant siblings at EQUAL voltage around nested sub-programs that are NOT constant: time reversal / single
+    repetition / reversal of a repetition of a sequence (these stay nested Loops, which to_waveform turns into nested
+    SequenceWaveforms / RepetitionWaveforms that the constant folding of SequenceWaveform.from_sequence must look into).
+    The equal-voltage siblings come as ConstantPT, as a table that is detected constant, or as a repeated constant."""
+    pool_vals = [F(1, 2), F(1), F(2), F(-1, 2), F(3, 2), F(1, 4)]
+    env = {'p0': rng.choice(pool_vals), 'p1': rng.choice(pool_vals)}
+    ctx = Ctx(rng, env, set(n for n, v in env.items() if v.denominator == 1), {})
+    pool = list(CHAN_POOL)
+    rng.shuffle(pool)
+    chans = pool[:rng.choice([1, 1, 1, 2])]
+    level = {ch: dyadic(rng, -2, 2) for ch in chans}
+
+    def const_at(lv, d=None):
+        d = F(rng.randint(1, 4), 2) if d is None else d
+        return {'k': 'const', 'd': expr_for(ctx, d), 'amps': [[ch, expr_for(ctx, lv[ch])] for ch in chans]}
+
+    def hold():
+        r = rng.random()
+        d = F(rng.randint(1, 4), 2)
+        if r < 0.6:
+            return const_at(level, d)
+        if r < 0.8:     # a table that TableWaveform.from_table detects as constant
+            return {'k': 'table', 'chs': [[ch, [[C(0), expr_for(ctx, level[ch]), 'hold'],
+                                                [expr_for(ctx, d), expr_for(ctx, level[ch]), rng.choice(INTERPS)]]]
+                                          for ch in chans]}
+        return {'k': 'rep', 'n': int_expr(ctx, F(rng.choice([1, 2]))), 'body': const_at(level, d)}
+
+    def ramp():
+        d = F(rng.randint(1, 4), 2)
+        chs = []
+        for ch in chans:
+            a = dyadic(rng, -2, 2)
+            k = rng.choice([-4, -3, -2, -1, 1, 2, 3, 4])
+            b = a + d * F(k, 4)
+            if rng.random() < 0.3:      # starts (or ends) at the siblings' level
+                a, b = level[ch], level[ch] + d * F(k, 4)
+            chs.append([ch, [[C(0), expr_for(ctx, a), 'hold'], [expr_for(ctx, d), expr_for(ctx, b), 'linear']]])
+        return {'k': 'table', 'chs': chs}
+
+    def piece():
+        r = rng.random()
+        if r < 0.55:
+            return ramp()
+        if r < 0.8:
+            other = {ch: level[ch] + F(rng.choice([-2, -1, 1, 2, 3]), 2) for ch in chans}
+            return const_at(other)
+        return const_at(level)
+
+    def nested():
+        n = rng.choice([2, 2, 3])
+        pieces = [piece() for _ in range(n)]
+        if all(x['k'] == 'const' for x in pieces):
+            pieces[rng.randrange(n)] = ramp()
+        body = {'k': 'seq', 'subs': pieces}
+        r = rng.random()
+        if r < 0.35:
+            return {'k': 'rev', 'body': body}, 'rev'
+        if r < 0.65:
+            return {'k': 'rep', 'n': int_expr(ctx, F(1)), 'body': body}, 'rep1'
+        if r < 0.75:
+            return {'k': 'rev', 'body': {'k': 'rep', 'n': C(2), 'body': body}}, 'rev-rep2'
+        if r < 0.85:
+            return {'k': 'rep', 'n': C(1), 'body': {'k': 'rev', 'body': body}}, 'rep1-rev'
+        if r < 0.93:
+            return {'k': 'rev', 'body': {'k': 'seq', 'subs': [hold(), {'k': 'rev', 'body': body}]}}, 'rev-rev'
+        return {'k': 'rep', 'n': C(2), 'body': body}, 'rep2'
+
+    shape = rng.choice(['HNH', 'HNH', 'HNH', 'HN', 'HHNH', 'HNHN', 'NH', 'HNh', 'HNNH'])
+    subs, wraps = [], []
+    for s in shape:
+        if s == 'H':
+            subs.append(hold())
+        elif s == 'h':
+            other = {ch: level[ch] + F(1, 2) for ch in chans}
+            subs.append(const_at(other))
+        else:
+            n, wname = nested()
+            subs.append(n)
+            wraps.append(wname)
+    pt = {'k': 'seq', 'subs': subs}
+    r = rng.random()
+    outer = 'plain'
+    if r < 0.1:
+        pt, outer = {'k': 'rep', 'n': C(2), 'body': pt}, 'rep2'
+    elif r < 0.2:
+        pt, outer = {'k': 'rev', 'body': pt}, 'rev'
+    elif r < 0.3:
+        pt, outer = {'k': 'arith', 'lhs': True, 'op': '*', 'scalar': C(2), 'body': pt}, 'scaled'
+    elif r < 0.38:
+        pt, outer = {'k': 'rep', 'n': C(1), 'body': pt}, 'rep1'
+    used = free_params(pt)
+    params = {k: str(v) for k, v in env.items() if k in used}
+    return {'pt': pt, 'params': params, 'cm': [], 'fold': '%s/%s/%s' % (shape, '+'.join(sorted(set(wraps))), outer)}
+
+
 # ---- malformed stream -----------------------------------------------------------------------------------------------
 def malform(rng, case):
     """break one thing: drop a needed parameter, make a count / range value non-integer, a table non-monotone, durations
